@@ -101,7 +101,7 @@ func (fr *Frame) loopCut(b *ssa.BasicBlock, ord int, ci *cfgInfo) {
 		fr.bumpTop()
 	}
 	if eff.all {
-		r.Heap.HavocAll(fr.st)
+		fr.havocAllHeap()
 	} else {
 		for _, n := range sortedBoolKeys(eff.comps) {
 			r.Heap.Havoc(fr.st, n)
@@ -314,11 +314,11 @@ func (fr *Frame) blockEffects(blocks []*ssa.BasicBlock, depth int) *effects {
 				mt := types.Unalias(in.Map.Type()).Underlying().(*types.Map)
 				eff.comps[mapDomComp(mt)] = true
 				eff.comps[mapValComp(mt)] = true
-				eff.comps[mapLenComp] = true
+				eff.comps[mapLenComp(mt)] = true
 			case *ssa.MakeMap:
 				mt := types.Unalias(in.Type()).Underlying().(*types.Map)
 				eff.comps[mapDomComp(mt)] = true
-				eff.comps[mapLenComp] = true
+				eff.comps[mapLenComp(mt)] = true
 				eff.alloc = true
 			case *ssa.MakeSlice:
 				eff.comps[elemsComp(types.Unalias(in.Type()).Underlying().(*types.Slice).Elem())] = true
@@ -367,7 +367,7 @@ func (fr *Frame) callEffects(cc *ssa.CallCommon, eff *effects, depth int) {
 		case "delete", "clear":
 			if mt, ok := types.Unalias(cc.Args[0].Type()).Underlying().(*types.Map); ok {
 				eff.comps[mapDomComp(mt)] = true
-				eff.comps[mapLenComp] = true
+				eff.comps[mapLenComp(mt)] = true
 			}
 		case "close":
 			eff.comps[chanClosedComp] = true
@@ -499,6 +499,10 @@ func (fr *Frame) staticType(e Expr, vars map[string]types.Type) types.Type {
 }
 
 func (fr *Frame) targetComps(e Expr, vars map[string]types.Type, pkgPath string) ([]string, bool) {
+	if id, ok := e.(EIdent); ok && id.Name == "chanState" {
+		fr.R.Heap.register(chanClosedComp, ArraySort(SInt, SBool))
+		return []string{chanClosedComp}, true
+	}
 	switch e := e.(type) {
 	case ESel:
 		xt := fr.staticType(e.X, vars)
@@ -531,7 +535,7 @@ func (fr *Frame) targetComps(e Expr, vars map[string]types.Type, pkgPath string)
 			xt := fr.staticType(e.Args[0], vars)
 			if xt != nil {
 				if mt, ok := types.Unalias(xt).Underlying().(*types.Map); ok {
-					return []string{mapDomComp(mt), mapValComp(mt), mapLenComp}, true
+					return []string{mapDomComp(mt), mapValComp(mt), mapLenComp(mt)}, true
 				}
 			}
 		case "all":
@@ -551,14 +555,38 @@ func (fr *Frame) targetComps(e Expr, vars map[string]types.Type, pkgPath string)
 			parts := strings.Split(typeExprString(e.Args[0]), ".")
 			ty, err := fr.R.Eng.ResolveType(strings.Join(parts[:len(parts)-1], "."), pkgPath)
 			if err == nil {
+				if st, ok := types.Unalias(ty).Underlying().(*types.Struct); ok {
+					for i := 0; i < st.NumFields(); i++ {
+						if st.Field(i).Name() == parts[len(parts)-1] {
+							name := fieldComp(ty, st.Field(i).Name())
+							fr.R.Heap.NoteType(name, st.Field(i).Type())
+							fr.R.Heap.register(name, ArraySort(SInt, fr.R.TM.SortOf(st.Field(i).Type())))
+						}
+					}
+				}
 				return []string{fieldComp(ty, parts[len(parts)-1])}, true
 			}
 		case "allElems":
 			ty, err := fr.R.Eng.ResolveType(typeExprString(e.Args[0]), pkgPath)
 			if err == nil {
+				fr.R.Heap.NoteType(elemsComp(ty), ty)
+				fr.R.Heap.register(elemsComp(ty), ArraySort(SInt, ArraySort(SInt, fr.R.TM.SortOf(ty))))
 				return []string{elemsComp(ty)}, true
 			}
+		case "maps":
+			ty, err := fr.R.Eng.ResolveType(typeExprString(e.Args[0]), pkgPath)
+			if err == nil {
+				if mt, ok := types.Unalias(ty).Underlying().(*types.Map); ok {
+					ks, vs := fr.mapSorts(mt)
+					fr.R.Heap.NoteType(mapValComp(mt), mt.Elem())
+					fr.R.Heap.register(mapDomComp(mt), ArraySort(SInt, ArraySort(ks, SBool)))
+					fr.R.Heap.register(mapValComp(mt), ArraySort(SInt, ArraySort(ks, vs)))
+					fr.R.Heap.register(mapLenComp(mt), ArraySort(SInt, SInt))
+					return []string{mapDomComp(mt), mapValComp(mt), mapLenComp(mt)}, true
+				}
+			}
 		case "chanState":
+			fr.R.Heap.register(chanClosedComp, ArraySort(SInt, SBool))
 			return []string{chanClosedComp}, true
 		case "reach":
 			xt := fr.staticType(e.Args[0], vars)
